@@ -79,8 +79,8 @@ func oracleRunLine(c *Case, gas uint64, hashes [][2]string) string {
 	if in == "" {
 		in = "-"
 	}
-	fmt.Fprintf(&sb, "RUN %x 0 %s %x %s %x %x 0 %x %s %x %s %s %s %s |", gas, originHex, envGasPrice, coinbaseHex, envTime, envNumber,
-		envGasLimit, chainIDHex, envBaseFee, strings.TrimLeft(c.To, "0"), valOf(c.Value).Text(16), in, masterTopicHex)
+	fmt.Fprintf(&sb, "RUN %x 0 %s %x %s %x %x 0 %x %s %x %s %s %s %s %x |", gas, originHex, envGasPrice, coinbaseHex, envTime, envNumber,
+		envGasLimit, chainIDHex, envBaseFee, strings.TrimLeft(c.To, "0"), valOf(c.Value).Text(16), in, masterTopicHex, c.fork())
 	fmt.Fprintf(&sb, " A %s %x - 0", originHex, originBal)
 	for _, ct := range c.Contracts {
 		fmt.Fprintf(&sb, " A %s %s %s 0", bigHex(ct.Addr).Text(16), valOf(ct.Bal).Text(16), hexOrDash(hexBytes(ct.Code)))
@@ -376,6 +376,7 @@ func runBatch(ctx *hx.Ctx, r *hx.Rand, cases []*Case, sweepMax int) {
 		}
 		ctx.Cov.Case(string(canon), nontrivial, sample)
 		ctx.Cov.Count("stream=" + x.src.Gen)
+		ctx.Cov.Count(fmt.Sprintf("fork=%d", x.src.fork()))
 		if !isFull {
 			ctx.Cov.Count("gas-sweep-runs")
 		}
